@@ -27,8 +27,8 @@ def run(tier):
     chk.cov["exhaustive_ean8"] = chk.cov["ean8_prefixes_swept"] == 10 ** 7
     evs = [e for e in evs if e["op"] == "encode"]
     ok = [e for e in evs if e["res"]["kind"] == "ok"]
-    cells13 = {(e["content"][0], pos, e["content"][pos]) for e in ok if len(e["res"]["content"]) == 13 for pos in range(1, 12)}
-    cells8 = {(pos, e["content"][pos]) for e in ok if len(e["res"]["content"]) == 8 for pos in range(7)}
+    cells13 = {(e["content"][0], pos, e["content"][pos]) for e in ok if len(e["res"]["content"]) == 13 and len(e["content"]) >= 12 for pos in range(1, 12)}
+    cells8 = {(pos, e["content"][pos]) for e in ok if len(e["res"]["content"]) == 8 and len(e["content"]) >= 7 for pos in range(7)}
     chk.cov.update(symbols_decoded=len(ok), rejected_inputs=len(evs) - len(ok), ean13_cells_first_pos_digit=len(cells13), ean13_cells_total=1100,
                    ean8_cells_pos_digit=len(cells8), ean8_cells_total=70,
                    input_lengths=sorted({len(e["content"]) for e in evs}))
